@@ -374,6 +374,79 @@ pub fn run(prop: &str, seed: u64, nhist: usize, trace_path: Option<&str>, rep: &
             }
         }
     }
+    // ---------------- "decodes that failed half-way": EVERY truncation point of a small stream, then reset, then the stream ----------------
+    // (input ending inside a symbol leaves the tables of exactly that symbol adapted - whatever bookkeeping reset()
+    // relies on to know what is dirty must have seen it)
+    for (pi, p) in [Props { lc: 3, lp: 0, pb: 2 }, Props { lc: 0, lp: 0, pb: 0 }, Props { lc: 4, lp: 0, pb: 0 }, Props { lc: 0, lp: 2, pb: 1 }].iter().enumerate() {
+        let mut prog: Vec<Sym> = (0..14u32).map(|k| Sym::Lit { b: (k * 37 + 11) as u8 }).collect();
+        prog.push(Sym::Match { d: 3, n: 5 });
+        prog.push(Sym::Lit { b: 0xF0 });
+        prog.push(Sym::Rep { r: 0, n: 3 });
+        prog.push(Sym::Short);
+        prog.push(Sym::Lit { b: 0x0F });
+        let e = coding::encode_program(&prog, *p);
+        let n = e.out.len() as u64;
+        // raw LZMA decoder
+        let mk = || LzmaDecoder::new(LzmaParams::new(LzmaProperties { lc: p.lc, lp: p.lp, pb: p.pb }, 4096, Some(n)), None).unwrap();
+        let fresh = dec1(&mut mk(), &e.payload);
+        for cut in 0..e.payload.len() {
+            let mut d = mk();
+            let _ = dec1(&mut d, &e.payload[..cut]);
+            d.reset(None);
+            let r = dec1(&mut d, &e.payload);
+            rep.eval(hash_of(&(pi, cut, "trunc-then-reset")), true);
+            if r.0 == Verdict::Panic || (fresh.0 != Verdict::Panic && ((r.0 == Verdict::Ok) != (fresh.0 == Verdict::Ok) || (r.0 == Verdict::Ok && r.1 != fresh.1))) {
+                rep.violation(prop, format!("LzmaDecoder [decompress(first {} of {} bytes), reset(None), decompress(whole stream)]: {:?} {}, a new decoder gives {:?}", cut, e.payload.len(), r.0, r.2, fresh.0),
+                    json!({"kind": "reuse", "decoder": "lzma", "seed": seed, "history": 0, "ops": [format!("truncated@{}", cut), "reset(None)", "whole"]}));
+            }
+        }
+        // LZMA2 decoder (properties the chunk header can carry)
+        if p.lc + p.lp <= 4 {
+            let (s2, _, _) = lzma2_stream(&[Chunk::Lzma { class: 3, props: Some(*p), prog: prog.clone() }]);
+            let fresh = dec2(&mut Lzma2Decoder::new(), &s2);
+            for cut in 0..s2.len() {
+                let mut d = Lzma2Decoder::new();
+                let _ = dec2(&mut d, &s2[..cut]);
+                d.reset();
+                let r = dec2(&mut d, &s2);
+                rep.eval(hash_of(&(pi, cut, "l2-trunc-then-reset")), true);
+                if r.0 == Verdict::Panic || (fresh.0 != Verdict::Panic && ((r.0 == Verdict::Ok) != (fresh.0 == Verdict::Ok) || (r.0 == Verdict::Ok && r.1 != fresh.1))) {
+                    rep.violation(prop, format!("Lzma2Decoder [decompress(first {} of {} bytes), reset(), decompress(whole stream)]: {:?} {}, a new decoder gives {:?}", cut, s2.len(), r.0, r.2, fresh.0),
+                        json!({"kind": "reuse", "decoder": "lzma2", "seed": seed, "history": 0, "ops": [format!("truncated@{}", cut), "reset()", "whole"]}));
+                }
+            }
+        }
+    }
+    // ---------------- "any number of reuse cycles": several hundred cycles on one object ----------------
+    // stream A trains literal contexts that stream B never touches; A comes back after 1, 2, 254..258 and 510..514
+    // cycles of B (a generation counter of any small width has wrapped by then)
+    for (pi, p) in [Props { lc: 3, lp: 2, pb: 0 }, Props { lc: 8, lp: 0, pb: 2 }, Props { lc: 3, lp: 0, pb: 2 }].iter().enumerate() {
+        let pa: Vec<Sym> = (0..40u32).map(|k| Sym::Lit { b: 0xE0 | (k * 5 % 32) as u8 }).collect();
+        let pb_: Vec<Sym> = (0..6u32).map(|k| Sym::Lit { b: (k % 3) as u8 }).collect();
+        let ea = coding::encode_program(&pa, *p);
+        let eb = coding::encode_program(&pb_, *p);
+        let mk = |n: u64| LzmaDecoder::new(LzmaParams::new(LzmaProperties { lc: p.lc, lp: p.lp, pb: p.pb }, 4096, Some(n)), None).unwrap();
+        let fa = dec1(&mut mk(ea.out.len() as u64), &ea.payload);
+        let mut d = mk(ea.out.len() as u64);
+        let _ = dec1(&mut d, &ea.payload);
+        let mut cycle = 0usize;
+        'gaps: for gap in [1usize, 2, 3, 254, 255, 256, 257, 258, 511, 512, 513] {
+            for _ in 1..gap {
+                d.reset(Some(Some(eb.out.len() as u64)));
+                let _ = dec1(&mut d, &eb.payload);
+                cycle += 1;
+            }
+            d.reset(Some(Some(ea.out.len() as u64)));
+            let r = dec1(&mut d, &ea.payload);
+            cycle += 1;
+            rep.eval(hash_of(&(pi, cycle, "many-cycles")), true);
+            if r.0 == Verdict::Panic || (fa.0 != Verdict::Panic && ((r.0 == Verdict::Ok) != (fa.0 == Verdict::Ok) || (r.0 == Verdict::Ok && r.1 != fa.1))) {
+                rep.violation(prop, format!("LzmaDecoder after {} reuse cycles (stream A again after {} cycles of stream B): {:?} {}, a new decoder gives {:?}", cycle, gap - 1, r.0, r.2, fa.0),
+                    json!({"kind": "reuse", "decoder": "lzma", "seed": seed, "history": 0, "ops": [format!("cycle {}", cycle)]}));
+                break 'gaps;
+            }
+        }
+    }
     // ---------------- Lzma2Decoder: first use (any pool stream: valid, failing half-way, ...) -> reset -> probe ----------------
     // the probes lean on the decoder's initial state (no new properties / no state reset in their first chunk), so
     // anything a reset leaves behind shows
